@@ -268,6 +268,21 @@ def work(args):
         rec["inner_own"] = build_real(strip_lang(inner), A, A)
         rec["inner_exp_under_B"] = build_real(inner, B, B)
         out.append(rec)
+        # pronominalized variant (the phrase is REPLACED by a pronoun of its own language at realization time):
+        # only the independence of the current language is required of it
+        if kind in ("NP", "PP") and rng.random() < 0.35:
+            full_p, pos_p = frame(rng, B, kind, inner + ".pro()")
+            out.append({"A": A, "B": B, "kind": kind + ".pro", "pos": pos_p, "src": full_p, "inner": inner + ".pro()",
+                        "r_en": build_real(full_p, B, "en"), "r_fr": build_real(full_p, B, "fr"),
+                        "r_buildA": build_real(full_p, A, B), "inner_own": ["", False], "inner_exp_under_B": ["", False]})
+        # tonic pronouns after a preposition, pronominalized (the clitic is looked up at realization time)
+        if rng.random() < 0.08:
+            pr = {"fr": ["lui", "elle", "eux", "moi", "toi"], "en": ["me", "him", "them"]}[A]
+            pp = 'PP(P(%s,"%s"),Pro(%s,"%s"),lang="%s").pro()' % (exprgen.q({"fr": "à", "en": "to"}[A]), A, exprgen.q(rng.choice(pr)), A, A)
+            full_t, pos_t = frame(rng, B, "PP", pp)
+            out.append({"A": A, "B": B, "kind": "PP(tonic).pro", "pos": pos_t, "src": full_t, "inner": pp,
+                        "r_en": build_real(full_t, B, "en"), "r_fr": build_real(full_t, B, "fr"),
+                        "r_buildA": build_real(full_t, A, B), "inner_own": ["", False], "inner_exp_under_B": ["", False]})
     return out, sorted(TRACE)
 
 
@@ -331,7 +346,7 @@ def run(ctx, deep=False):
                 ctx.fail("explicit-lang-differs-from-creation-under-that-language:%s:%s" % (r["A"], r["kind"]),
                          {"src": r["inner"], "A": r["A"]}, {"no_lang_under_A": r["inner_own"], "explicit_under_B": r["inner_exp_under_B"]})
             # O3: the embedded phrase keeps its own-language text inside the other-language clause
-            if r["kind"] in ("NP", "PP", "AP", "CP", "Adv") and not r["r_en"][0].startswith("EXC") and not r["inner_own"][0].startswith("EXC"):
+            if r["kind"] in ("NP", "PP", "AP", "CP", "Adv") and r["inner_own"][0] and not r["r_en"][0].startswith("EXC") and not r["inner_own"][0].startswith("EXC"):
                 inner_t = norm(r["inner_own"][0])
                 if inner_t and inner_t not in norm(r["r_en"][0]):
                     # an attribute AP agrees with the subject, a subject-position NP starts with a capital (norm lower-cases)
